@@ -141,3 +141,42 @@ def binarySearchFunc {α τ : Type} [Inhabited α] (x : List α) (target : τ) (
   let i := bsLoop x target cmp x.length 0 n
   (i, decide (i < n) && cmp (getI x i) target == 0)
 end Sema.Go
+
+namespace Sema.Go
+/-- a Go interface value (`any`) as far as the translated code can look into it: nil, a
+`map[string]any`, or any other dynamic value (of an abstract type `α`) -/
+inductive Any (α : Type) where
+  | nil
+  | map (m : List (String × Any α))
+  | val (a : α)
+
+/-- result of a `for … range` loop with an exit (structural recursion, no fuel): it ended
+(list exhausted, or `break`) with state `s`, or a `return r` was executed inside -/
+inductive Brk (σ ρ : Type) where
+  | next (s : σ)
+  | ret (r : ρ)
+
+/-- statements after a range loop that is itself inside a range loop -/
+def Brk.andThen {σ τ ρ : Type} (c : Brk σ ρ) (k : σ → Brk τ ρ) : Brk τ ρ :=
+  match c with
+  | .next s => k s
+  | .ret r => .ret r
+/-- statements after a range loop at the top of a function (or closure) without `for` loops -/
+def Brk.finish {σ ρ : Type} (c : Brk σ ρ) (k : σ → ρ) : ρ :=
+  match c with
+  | .next s => k s
+  | .ret r => r
+/-- statements after a range loop inside a `for` loop -/
+def Brk.andThenCtl {σ τ ρ : Type} (c : Brk σ ρ) (k : σ → Ctl τ ρ) : Ctl τ ρ :=
+  match c with
+  | .next s => k s
+  | .ret r => .ret r
+/-- statements after a range loop at the top of a function that also has `for` loops -/
+def Brk.finishOut {σ ρ : Type} (c : Brk σ ρ) (k : σ → Out ρ) : Out ρ :=
+  match c with
+  | .next s => k s
+  | .ret r => .ret r
+
+/-- `strings.Split(s, sep)` for a non-empty literal `sep` -/
+def strSplit (s sep : String) : List String := s.splitOn sep
+end Sema.Go
